@@ -139,13 +139,19 @@ Definition mon_follow_flag : pcase -> bool :=
     forallb (fun kw : bool * nat => if fst kw then true else Nat.eqb (snd kw) (if o_paused o then 1 else 0))
             (combine canc (o_ws o))).
 
-(* 4 the calls take effect: after a round of Pause calls only the manager is paused, after a
-   round of Resume calls only it is not (pause_reaches_all / resume_wakes_all) *)
-Definition mon_call_effect : pcase -> bool :=
-  over_rounds (fun _ _ ops (o : obs) =>
-    let np := existsb is_pause ops in let nr := existsb is_resume ops in
-    if negb (full o) || negb (forallb is_zero (o_ctl o)) then true
-    else if np && negb nr then o_paused o else if nr && negb np then negb (o_paused o) else true).
+(* 4 the calls take effect: when no call was in progress before the round, then after a round of
+   Pause calls only the manager is paused, after a round of Resume calls only it is not
+   (pause_reaches_all / resume_wakes_all) *)
+Fixpoint effect (prev : list nat) (rs : list (list op * obs)) : bool :=
+  match rs with
+  | [] => true
+  | (ops, o) :: r =>
+      (let np := existsb is_pause ops in let nr := existsb is_resume ops in
+       if negb (forallb is_zero prev) || negb (full o) || negb (forallb is_zero (o_ctl o)) then true
+       else if np && negb nr then o_paused o else if nr && negb np then negb (o_paused o) else true)
+      && effect (o_ctl o) r
+  end.
+Definition mon_call_effect (c : pcase) : bool := effect (repeat 0 (p_nc c)) (p_rounds c).
 
 (* 5 no channel that a Pause may still be about to send on is ever closed (no_panic's reason) *)
 Definition mon_pausech_open : pcase -> bool := over_rounds (fun _ _ _ (o : obs) => Nat.eqb (o_pcl o) 0).
